@@ -76,7 +76,7 @@ def install_ambient(path):
         while f is not None:
             fn = f.f_code.co_filename
             if "nunavut" in fn and "jinja2" not in fn:
-                return "%s:%d" % (os.path.relpath(fn, "/repo"), f.f_lineno)
+                return "%s:%d" % (os.path.relpath(fn, os.environ.get("VERIF_REPO", "/repo")), f.f_lineno)
             f = f.f_back
         return None
 
